@@ -1250,6 +1250,9 @@ func (p *Prog) indexTimeSeed() []Ob {
 				continue
 			}
 			ob := Ob{Rule: "R11", Inst: "L6:" + funcLabel(cl.fn) + ":index-time-seed", Props: []string{"C11", "C07"}, Pos: p.at(it), Func: funcLabel(cl.fn), Nontrivial: true}
+			if cl.fn.Name() == "Migrate" {
+				ob.Props = []string{"C11", "C17"}
+			}
 			okSeed := true
 			seed := ""
 			for i, e := range phi.Edges {
@@ -1262,8 +1265,84 @@ func (p *Prog) indexTimeSeed() []Ob {
 					seed = e.String()
 				}
 			}
-			if okSeed {
-				ob.Status, ob.Msg = Discharged, "the carried index timestamp starts at 0"
+			// (L6b) what is carried into the next iteration is the timestamp of an item just built
+			// (the running maximum), not the time of the message
+			tsField := -1
+			if st, ok := it.Type().Underlying().(*types.Struct); ok {
+				for i := 0; i < st.NumFields(); i++ {
+					if st.Field(i).Name() == "Timestamp" {
+						tsField = i
+					}
+				}
+			}
+			var carriedOK func(v ssa.Value, d int) bool
+			carriedOK = func(v ssa.Value, d int) bool {
+				v = canon(v)
+				if v == ssa.Value(phi) {
+					return true
+				}
+				if d > 6 {
+					return false
+				}
+				switch x := v.(type) {
+				case *ssa.Phi:
+					for _, e := range x.Edges {
+						if !carriedOK(e, d+1) {
+							return false
+						}
+					}
+					return true
+				case *ssa.Field:
+					if c, ok := canon(x.X).(*ssa.Call); ok && x.Field == tsField {
+						return calleeName(c.Common()) == calleeName(it.Common())
+					}
+					if u, ok := x.X.(*ssa.UnOp); ok && x.Field == tsField {
+						if al, ok := u.X.(*ssa.Alloc); ok {
+							for _, st := range allocStores(al) {
+								if c, ok := canon(st.Val).(*ssa.Call); !ok || calleeName(c.Common()) != calleeName(it.Common()) {
+									return false
+								}
+							}
+							return true
+						}
+					}
+				case *ssa.UnOp:
+					if fa, ok := x.X.(*ssa.FieldAddr); ok && x.Op == token.MUL && fa.Field == tsField {
+						if al, ok := fa.X.(*ssa.Alloc); ok {
+							sts := allocStores(al)
+							for _, st := range sts {
+								if c, ok := canon(st.Val).(*ssa.Call); !ok || calleeName(c.Common()) != calleeName(it.Common()) {
+									return false
+								}
+							}
+							return len(sts) > 0
+						}
+					}
+				case *ssa.Call:
+					// max(carried, ...) keeps the running maximum too
+					if isBuiltinCall(x.Common(), "max") {
+						for _, a := range x.Call.Args {
+							if canon(a) == ssa.Value(phi) {
+								return true
+							}
+						}
+					}
+				}
+				return false
+			}
+			carried := ""
+			for i, e := range phi.Edges {
+				if !cl.header.Dominates(cl.header.Preds[i]) {
+					continue
+				}
+				if tsField >= 0 && !carriedOK(e, 0) {
+					carried = e.String()
+				}
+			}
+			if okSeed && carried != "" {
+				ob.Status, ob.Msg = Violated, "what this loop carries into the next index item is "+carried+", not the timestamp of the item it just built: where message times go backwards for more than one message the derived time index is no longer monotonic, and differs from the one that was published"
+			} else if okSeed {
+				ob.Status, ob.Msg = Discharged, "the carried index timestamp starts at 0 and continues with the timestamp of the item just built"
 			} else {
 				ob.Status, ob.Msg = Violated, "the carried index timestamp of this loop starts at "+seed+" while every sibling loop and the appending writer of a fresh log start at 0: for times before the epoch the index rebuilt here differs from the one that was published"
 			}
